@@ -20,17 +20,27 @@ def _tok(params: Any) -> Optional[str]:
     return None
 
 
+class _Hung(Exception):
+    """The method never finishes; the innermost deadline middleware above it gives up and the rest is cancelled."""
+
+
 def expected_element(element: Dict[str, Any], mw_kinds: List[str], handlers: Dict[str, List[Tuple[str, str]]],
-                     methods: Dict[str, R.MethodModel], unset: Any, error_types: Tuple[type, ...]
-                     ) -> Tuple[List[Tuple[Any, ...]], Optional[Dict[str, Any]]]:
-    """Expected projected event list and reply object (None = no reply) for one valid request element."""
+                     methods: Dict[str, R.MethodModel], unset: Any, error_types: Tuple[type, ...],
+                     hanging: Any = None) -> Tuple[List[Tuple[Any, ...]], Optional[Dict[str, Any]]]:
+    """Expected projected event list and reply object (None = no reply) for one valid request element.
+
+    ``hanging(tok, method)`` tells whether the method suspends beyond every deadline (only asked when an asynchronous
+    chain contains a deadline middleware)."""
     events: List[Tuple[Any, ...]] = []
     rid = element.get('id')
+    deadlines = hanging is not None and 'deadline' in mw_kinds
 
     def inner(req: Dict[str, Any]) -> Optional[Dict[str, Any]]:
         reply, execution = R.element_outcome(dict(req, id=rid if rid is not None else 0), methods, unset, error_types)
         if execution is not None:
             events.append(('method', execution[0]))
+            if deadlines and hanging(_tok(req.get('params', [])), execution[0]):
+                raise _Hung()
         assert reply is not None
         if 'error' in reply:
             err = dict(reply['error'])
@@ -57,6 +67,12 @@ def expected_element(element: Dict[str, Any], mw_kinds: List[str], handlers: Dic
             resp: Optional[Dict[str, Any]] = None if rid is None else {'jsonrpc': '2.0', 'id': rid, 'result': f'short-{i}'}
         elif kind == 'rewrite_req' and req['method'] == REWRITE_TRIGGER and tok is not None:
             resp = descend(i + 1, {'jsonrpc': '2.0', 'method': 'echo', 'params': [tok, f'rewritten-{i}'], 'id': rid})
+        elif kind == 'deadline' and deadlines:
+            try:
+                resp = descend(i + 1, req)
+            except _Hung:
+                # everything below was cancelled where it stood: the middlewares below never reach their exit
+                resp = None if rid is None else {'jsonrpc': '2.0', 'id': rid, 'result': f'deadline-{i}'}
         else:
             resp = descend(i + 1, req)
         if kind == 'rewrite_resp' and resp is not None and 'result' in resp:
